@@ -394,17 +394,15 @@ def bce_loss_backward(grad: np.ndarray, y_pred: np.ndarray, y_true: np.ndarray) 
 
 
 def bce_with_logits_loss_forward(y_pred: np.ndarray, y_true: np.ndarray) -> np.ndarray:
-    tn = -relu_forward(y_pred)
-    loss = (1-y_true) * y_pred + tn + np.log(np.exp(-tn) + np.exp((-y_pred-tn)))
+    # max(x, 0) - x*y + log(1 + exp(-|x|)): no exponential of a positive number is taken
+    loss = relu_forward(y_pred) - y_pred * y_true + np.log1p(np.exp(-np.abs(y_pred)))
     return loss
 
 def bce_with_logits_loss_backward(grad: np.ndarray, y_pred: np.ndarray, y_true: np.ndarray) -> np.ndarray:
-    tn = -relu_forward(y_pred)
-    dtn = np.where(tn == 0, 0, -1)
-    div1 = -dtn*np.exp(-tn) + (-1-dtn)*np.exp((-y_pred-tn))
-    div2 = np.exp(-tn) + np.exp((-y_pred-tn))
-    loss_grad = (1 - y_true) + dtn + (div1/(div2 + epsilon))
-    return grad * loss_grad
+    # sigmoid(x) - y, with the sigmoid evaluated through exp(-|x|)
+    exp_neg_abs = np.exp(-np.abs(y_pred))
+    sigmoid = np.where(y_pred >= 0, 1, exp_neg_abs) / (1 + exp_neg_abs)
+    return grad * (sigmoid - y_true)
 
 
 def cross_entropy_loss_forward(y_pred: np.ndarray, y_true: np.ndarray) -> np.ndarray:
